@@ -270,6 +270,16 @@ def st_signal(draw, band, n, tie_rich=False, bursty=False):
     return {'kind': 'recipe', 'n': n, 'fs': fs, 'comps': comps, 'post': post}
 
 
+@st.composite
+def st_variant(draw):
+    """How the SAME argument values are handed over: the result must not depend on it."""
+    if draw(st.integers(0, 2)) > 0:
+        return None
+    return {'sig_view': draw(st.sampled_from(['plain', 'readonly', 'strided', 'plain'])),
+            'f_range': draw(st.sampled_from(['tuple', 'list'])),
+            'np_scalars': draw(st.booleans()), 'reverse_keys': draw(st.booleans())}
+
+
 def st_threshold():
     return st.one_of(st.sampled_from(GRID8), st.sampled_from([0.0, 0.0, 0.25, 0.5]), _f(0, 1))
 
@@ -360,7 +370,8 @@ def st_analysis_case(draw, methods=('cycles', 'amp'), centers=('peak', 'trough')
     sig = draw(st_signal(band, n, tie_rich=tie_rich, bursty=bursty))
     return {'fs': fs, 'f_range': [f_lo, f_hi], 'sig': sig, 'center': center, 'method': method,
             'fek': fek, 'th': th, 'bk': bk, 'routing': routing,
-            'return_samples': draw(st.sampled_from([True, True, False]))}
+            'return_samples': draw(st.sampled_from([True, True, False])),
+            'variant': draw(st_variant())}
 
 
 # -------------------------------------------------------------------------------------------------
@@ -380,13 +391,64 @@ def _tuplify_bk(bk):
     return bk
 
 
+def _np_scalars(d):
+    import numpy as np
+    if not isinstance(d, dict):
+        return d
+    out = {}
+    for k, v in d.items():
+        if isinstance(v, dict):
+            out[k] = _np_scalars(v)
+        elif isinstance(v, bool):
+            out[k] = np.bool_(v)
+        elif isinstance(v, int):
+            out[k] = np.int64(v)
+        elif isinstance(v, float):
+            out[k] = np.float64(v)
+        else:
+            out[k] = v
+    return out
+
+
+def _reverse_keys(d):
+    if not isinstance(d, dict):
+        return d
+    return {k: _reverse_keys(d[k]) for k in reversed(list(d))}
+
+
 def cf_kwargs(case, **override):
-    """Fresh keyword arguments for compute_features."""
+    """Fresh keyword arguments for compute_features (in the case's argument-object variant, if any)."""
     kw = dict(center_extrema=case['center'], burst_method=case['method'],
               burst_kwargs=_tuplify_bk(case.get('bk')), threshold_kwargs=copy_json(case.get('th')),
               find_extrema_kwargs=copy_json(case.get('fek')), return_samples=case.get('return_samples', True))
+    v = case.get('variant')
+    if v:
+        for key in ('burst_kwargs', 'threshold_kwargs', 'find_extrema_kwargs'):
+            if v.get('np_scalars'):
+                kw[key] = _np_scalars(kw[key])
+            if v.get('reverse_keys'):
+                kw[key] = _reverse_keys(kw[key])
     kw.update(override)
     return kw
+
+
+def call_args(case, x):
+    """(signal object, fs, f_range) as the case's variant hands them over; values are always those of the case"""
+    import numpy as np
+    v = case.get('variant') or {}
+    sig = x.copy()
+    if v.get('sig_view') == 'readonly':
+        sig.setflags(write=False)
+    elif v.get('sig_view') == 'strided':
+        buf = np.zeros(2 * len(x), dtype=x.dtype)
+        buf[::2] = x
+        sig = buf[::2]
+    fs = case['fs']
+    if v.get('np_scalars'):
+        fs = np.float64(fs)
+    fr = case['f_range']
+    fr = {'list': list(fr), 'array': np.array(fr, dtype=float)}.get(v.get('f_range'), tuple(fr))
+    return sig, fs, fr
 
 
 def case_labels(case):
@@ -403,6 +465,8 @@ def case_labels(case):
         out.append('routing:' + case['routing'])
     if case['method'] == 'cycles':
         out.append('th:none' if case.get('th') is None else 'th:dict')
+    if case.get('variant'):
+        out.append('arg-variant')
     return out
 
 
